@@ -23,14 +23,20 @@ mutual
   def Ty.beq : Ty → Ty → Bool
     | .prim p, .prim q => p == q
     | .str, .str => true
-    | .enum h ls, .enum h' ls' => h == h' && ls == ls'
+    | .enum h ls x, .enum h' ls' x' => h == h' && ls == ls' && x == x'
+    | .wstr, .wstr => true
     | .seq a, .seq b => Ty.beq a b
     | .arr a n, .arr b m => n == m && Ty.beq a b
     | .struct x ms, .struct y ns => x == y && Ms.beq ms ns
+    | .union d bs, .union d' bs' => d == d' && Bs.beq bs bs'
     | _, _ => false
   def Ms.beq : Ms → Ms → Bool
     | .nil, .nil => true
     | .cons i o m t r, .cons i' o' m' t' r' => i == i' && o == o' && m == m' && Ty.beq t t' && Ms.beq r r'
+    | _, _ => false
+  def Bs.beq : Bs → Bs → Bool
+    | .nil, .nil => true
+    | .cons i ls d t r, .cons i' ls' d' t' r' => i == i' && ls == ls' && d == d' && Ty.beq t t' && Bs.beq r r'
     | _, _ => false
 end
 
@@ -38,10 +44,12 @@ mutual
   def KTy.beq : KTy → KTy → Bool
     | .prim p, .prim q => p == q
     | .str, .str => true
-    | .enum h ls, .enum h' ls' => h == h' && ls == ls'
+    | .enum h ls x, .enum h' ls' x' => h == h' && ls == ls' && x == x'
+    | .wstr, .wstr => true
     | .seq a, .seq b => KTy.beq a b
     | .arr a n, .arr b m => n == m && KTy.beq a b
     | .struct x ms, .struct y ns => x == y && KMs.beq ms ns
+    | .union d bs, .union d' bs' => d == d' && Bs.beq bs bs'
     | _, _ => false
   def KMs.beq : KMs → KMs → Bool
     | .nil, .nil => true
@@ -55,6 +63,8 @@ inductive Tid
   | bool | byte | i8 | u8 | i16 | u16 | i32 | u32 | i64 | u64 | f32 | f64 | c8
   /-- `TiString8Large { bound: u32::MAX }` (the harness builds unbounded strings) -/
   | str
+  /-- `TiString16Large { bound: u32::MAX }` -/
+  | wstr
   /-- `TiPlainSequenceSmall / Large`; the bound is ignored by the default policy -/
   | seq (el : Tid)
   /-- `TiPlainArraySmall / Large { array_bound_seq: [n] }` (small iff n <= 255, so equal bounds are in the same variant) -/
@@ -70,8 +80,10 @@ def primTid : Prim → Tid
 def tidOf : KTy → Tid
   | .prim p => primTid p
   | .str => .str
-  | .enum _ _ => .complete
+  | .enum _ _ _ => .complete
+  | .wstr => .wstr
   | .struct _ _ => .complete
+  | .union _ _ => .complete
   | .seq el => .seq (tidOf el)
   | .arr el n => .arr n (tidOf el)
 
@@ -191,6 +203,7 @@ def Ms.isPrefix : Ms → Ms → Bool
 def needs4 : Ty → Bool
   | .prim p => decide (4 ≤ p.size)
   | .str => true
+  | .wstr => true
   | .seq _ => true
   | _ => false
 
